@@ -37,6 +37,7 @@ BOUNDS = {
 EXHAUSTIVE = {"quick": True, "thorough": True}
 SAMPLE_EVERY = {"quick": 9000, "thorough": 300000}
 
+# ("updated", "A") supplies TWO instances of A in one call (the last one wins)
 BLOCKS = [("sscope", "A"), ("updated", "A"), ("ascope", "A"), ("updated", "R"), ("prepared", "R")]
 # op 5 = "use the shared prepared update": `with prepared_update: probe` in one step (no suspension
 # inside, so uses never overlap); the object was built by the root at its start and may be used by
@@ -202,9 +203,11 @@ def execute(program, ch: Chooser) -> Result:  # noqa: C901, PLR0915
             elif op >= 0:
                 kind, sup = BLOCKS[op]
                 label = f"t{tid}b{next(counter)}"
-                states = make_states([sup], label)
+                # the update block supplies two instances of its type in one call (the last wins)
+                states = make_states([sup, sup] if (kind, sup) == ("updated", "A") else [sup], label)
                 keep.extend(states)
-                supplied[id(states[0])] = states[0].tag
+                for st_ in states:
+                    supplied[id(st_)] = st_.tag
                 if kind == "prepared":
                     cm, states = prepared["cm"], prepared["states"]
                     cm.__enter__()
@@ -219,7 +222,7 @@ def execute(program, ch: Chooser) -> Result:  # noqa: C901, PLR0915
                     cm = ctx.updated(*states)
                     cm.__enter__()
                 open_cms.append((kind, cm, in_scope, soft))
-                env.append({sup: states[0].tag})
+                env.append({sup: states[-1].tag})
                 if kind == "updated":
                     soft = soft or not in_scope
                 else:
